@@ -1,4 +1,10 @@
 
+(** val negb : bool -> bool **)
+
+let negb = function
+| true -> false
+| false -> true
+
 type nat =
 | O
 | S of nat
@@ -37,6 +43,29 @@ module Coq__1 = struct
 end
 include Coq__1
 
+module Nat =
+ struct
+  (** val eqb : nat -> nat -> bool **)
+
+  let rec eqb n0 m =
+    match n0 with
+    | O -> (match m with
+            | O -> true
+            | S _ -> false)
+    | S n' -> (match m with
+               | O -> false
+               | S m' -> eqb n' m')
+
+  (** val leb : nat -> nat -> bool **)
+
+  let rec leb n0 m =
+    match n0 with
+    | O -> true
+    | S n' -> (match m with
+               | O -> false
+               | S m' -> leb n' m')
+ end
+
 (** val nth : nat -> 'a1 list -> 'a1 -> 'a1 **)
 
 let rec nth n0 l default =
@@ -59,6 +88,18 @@ let rec rev = function
 let rec map f = function
 | [] -> []
 | a :: t -> (f a) :: (map f t)
+
+(** val fold_right : ('a2 -> 'a1 -> 'a1) -> 'a1 -> 'a2 list -> 'a1 **)
+
+let rec fold_right f a0 = function
+| [] -> a0
+| b :: t -> f b (fold_right f a0 t)
+
+(** val existsb : ('a1 -> bool) -> 'a1 list -> bool **)
+
+let rec existsb f = function
+| [] -> false
+| a :: l0 -> (||) (f a) (existsb f l0)
 
 (** val skipn : nat -> 'a1 list -> 'a1 list **)
 
@@ -1101,3 +1142,190 @@ let rec rfc4648 = function
 
 let strip_padding cs =
   rev (skipn (count_padding cs) (rev cs))
+
+(** val split_at : z -> z list -> z list -> z list list * z list **)
+
+let rec split_at d bs cur =
+  match bs with
+  | [] -> ([], (rev cur))
+  | b :: r ->
+    if Z.eqb b d
+    then let (rs, t) = split_at d r [] in (((rev cur) :: rs), t)
+    else split_at d r (b :: cur)
+
+(** val strip_cr : z list -> z list **)
+
+let strip_cr l =
+  match rev l with
+  | [] -> l
+  | z0 :: r ->
+    (match z0 with
+     | Zpos p ->
+       (match p with
+        | XI p0 ->
+          (match p0 with
+           | XO p1 ->
+             (match p1 with
+              | XI p2 -> (match p2 with
+                          | XH -> rev r
+                          | _ -> l)
+              | _ -> l)
+           | _ -> l)
+        | _ -> l)
+     | _ -> l)
+
+(** val records : z -> bool -> z list -> z list list **)
+
+let records d cr bs =
+  let (rs, t) = split_at d bs [] in
+  app (map (if cr then strip_cr else (fun x -> x)) rs)
+    (match t with
+     | [] -> []
+     | _ :: _ -> t :: [])
+
+(** val docenc_encode_strip_cr : bool **)
+
+let docenc_encode_strip_cr =
+  false
+
+(** val docenc_decode_strip_cr : bool **)
+
+let docenc_decode_strip_cr =
+  true
+
+(** val docenc_indices_unique : bool **)
+
+let docenc_indices_unique =
+  true
+
+(** val docenc_rejects_index_zero : bool **)
+
+let docenc_rejects_index_zero =
+  true
+
+type tres =
+| TOk of z list
+| TAbort
+| TFuel
+| TUsage
+
+(** val insert_sorted : nat -> nat list -> nat list **)
+
+let rec insert_sorted x l = match l with
+| [] -> x :: []
+| y :: r -> if Nat.leb x y then x :: l else y :: (insert_sorted x r)
+
+(** val sort_nat : nat list -> nat list **)
+
+let sort_nat l =
+  fold_right insert_sorted [] l
+
+(** val uniq_adjacent : nat list -> nat list **)
+
+let rec uniq_adjacent l = match l with
+| [] -> l
+| x :: r ->
+  (match r with
+   | [] -> l
+   | y :: _ -> if Nat.eqb x y then uniq_adjacent r else x :: (uniq_adjacent r))
+
+(** val norm_indices : nat list -> nat list **)
+
+let norm_indices l =
+  if docenc_indices_unique then uniq_adjacent (sort_nat l) else sort_nat l
+
+(** val is_nil : 'a1 list -> bool **)
+
+let is_nil = function
+| [] -> true
+| _ :: _ -> false
+
+(** val dec_docs : bool -> z -> z list list -> nat -> nat list -> tres **)
+
+let rec dec_docs use_idx delim lines i rem =
+  match lines with
+  | [] -> TOk []
+  | l :: ls ->
+    let i' = S i in
+    let emit = fun rem' stop ->
+      match base64_decode l with
+      | DOk d ->
+        if stop
+        then TOk (app d (delim :: []))
+        else (match dec_docs use_idx delim ls i' rem' with
+              | TOk o -> TOk (app d (delim :: o))
+              | x -> x)
+      | _ -> TAbort
+    in
+    if use_idx
+    then (match rem with
+          | [] -> TOk []
+          | x :: rem' ->
+            if Nat.eqb x i'
+            then emit rem' (is_nil rem')
+            else dec_docs use_idx delim ls i' rem)
+    else emit rem false
+
+(** val decode_tool : z -> nat list -> z list -> tres **)
+
+let decode_tool delim indices input =
+  if (&&) docenc_rejects_index_zero (existsb (Nat.eqb O) indices)
+  then TUsage
+  else dec_docs (negb (is_nil indices)) delim
+         (records (Zpos (XO (XI (XO XH)))) docenc_decode_strip_cr input) O
+         (norm_indices indices)
+
+(** val take_doc :
+    bool -> z list list -> z list -> (z list * z list list) * bool **)
+
+let rec take_doc nl recs acc =
+  match recs with
+  | [] -> ((acc, []), true)
+  | l :: r ->
+    if nl
+    then if is_nil l
+         then ((acc, r), false)
+         else take_doc nl r (app acc (app l ((Zpos (XO (XI (XO XH)))) :: [])))
+    else (((app acc l), r), false)
+
+(** val enc_docs :
+    nat -> bool -> bool -> z list list -> nat -> nat list -> tres **)
+
+let rec enc_docs fuel nl use_idx recs i rem =
+  match fuel with
+  | O -> TFuel
+  | S f ->
+    let (p, eof) = take_doc nl recs [] in
+    let (doc, rest) = p in
+    if (&&) eof (is_nil doc)
+    then TOk []
+    else let i' = S i in
+         let emit = fun rem' stop ->
+           match base64_encode doc with
+           | Some e ->
+             if stop
+             then TOk (app e ((Zpos (XO (XI (XO XH)))) :: []))
+             else (match enc_docs f nl use_idx rest i' rem' with
+                   | TOk o -> TOk (app e ((Zpos (XO (XI (XO XH)))) :: o))
+                   | x -> x)
+           | None -> TFuel
+         in
+         if use_idx
+         then (match rem with
+               | [] -> TOk []
+               | x :: rem' ->
+                 if Nat.eqb x i'
+                 then emit rem' ((||) eof (is_nil rem'))
+                 else if eof
+                      then TOk []
+                      else enc_docs f nl use_idx rest i' rem)
+         else emit rem eof
+
+(** val encode_tool : z -> nat list -> z list -> tres **)
+
+let encode_tool delim indices input =
+  if (&&) docenc_rejects_index_zero (existsb (Nat.eqb O) indices)
+  then TUsage
+  else let recs = records delim docenc_encode_strip_cr input in
+       enc_docs (S (length recs)) (Z.eqb delim (Zpos (XO (XI (XO XH)))))
+         (negb (is_nil indices)) recs O (norm_indices indices)
